@@ -16,3 +16,28 @@ package collect
 //@   ensures[orig-meta-set] old(sp.SampleRate) != 0 ==> toInt(sp.Data.MetaRefineryOriginalSampleRate) == toInt(old(sp.SampleRate))
 //@   ensures[orig-meta-kept] old(sp.SampleRate) == 0 ==> sp.Data.MetaRefineryOriginalSampleRate == old(sp.Data.MetaRefineryOriginalSampleRate)
 //@   modifies sp.SampleRate, sp.Data
+
+// ---- C10: stress-relief deterministic sampling
+
+//@ spec stressHash(id string) uint64 := wyhash.Hash([]byte(id), hashSeed)
+//@ spec keepStress(id string, n uint64) bool := n <= 1 || toInt(stressHash(id)) <= 18446744073709551615 / toInt(n)
+
+//@ objinv collect.StressRelief bound : this.sampleRate >= 1 ==> toInt(this.upperBound) == 18446744073709551615 / toInt(this.sampleRate)
+
+//@ contract collect.(*StressRelief).UpdateFromConfig props C10 unshared
+//@   requires s != nil
+//@   let cfg = s.Config.GetStressReliefConfig()
+//@   ensures[rate] s.sampleRate == ite(cfg.SamplingRate == 0, 1, cfg.SamplingRate)
+//@   ensures[bound] toInt(s.upperBound) == 18446744073709551615 / toInt(s.sampleRate)
+//@   ensures[levels] s.activateLevel == cfg.ActivationLevel && s.deactivateLevel == cfg.DeactivationLevel && toInt(s.minDuration) == toInt(cfg.MinimumActivationDuration)
+//@   ensures[keeps-state] s.stressed == old(s.stressed) && s.stayOnUntil == old(s.stayOnUntil)
+//@   modifies s.mode, s.activateLevel, s.deactivateLevel, s.sampleRate, s.minDuration, s.upperBound
+
+//@ contract collect.(*StressRelief).GetSampleRate props C10
+//@   requires s != nil
+//@   ensures[keep] keep == keepStress(traceID, s.sampleRate)
+//@   ensures[rate] toInt(rate) == ite(s.sampleRate <= 1, 1, toInt(s.sampleRate))
+//@   modifies nothing
+
+//@ lemma C10.stress-nested-keep props C10 : forall id string, m uint64, n uint64 :: 1 <= m && m <= n && keepStress(id, n) ==> keepStress(id, m)
+//@ lemma C10.stress-rate1-keeps-all props C10 : forall id string :: keepStress(id, 1) && keepStress(id, 0)
